@@ -1,2 +1,10 @@
 import PieModel.Props.C02
-#print axioms PieModel.C02_placeholder
+
+#print axioms PieModel.C02_consistent_memo
+#print axioms PieModel.C02_consistent_memo_sound
+#print axioms PieModel.C02_settled
+#print axioms PieModel.C02_idempotent
+#print axioms PieModel.C02_idempotent_fuel
+#print axioms PieModel.C02_idempotent_any
+#print axioms PieModel.noExec
+#print axioms PieModel.sessionRequire_fuel
